@@ -278,6 +278,10 @@ pub fn contexts() -> Vec<Ctx> {
         // a positive look-around inside a counted repeat inside a look-behind
         ("((?<=(?:(?=X)[ab]){2}))", Box::new(move |x| Node::group(Look(b(Repeat(b(Concat(vec![Look(b(x), false, false), Node::class("[ab]")])), 2, Some(2), Mode::Greedy)), true, false)))),
         ("(?<=(?:(?=X)a){2})b?", Box::new(move |x| Concat(vec![Look(b(Repeat(b(Concat(vec![Look(b(x), false, false), la()])), 2, Some(2), Mode::Greedy)), true, false), Repeat(b(lb()), 0, Some(1), Mode::Greedy)]))),
+        // an outer look-around whose body holds TWO positive look-arounds one after the other
+        ("(?<=(?=X)(?=a)[ab])", Box::new(move |x| Look(b(Concat(vec![Look(b(x), false, false), Look(b(la()), false, false), Node::class("[ab]")])), true, false))),
+        ("(?<=(?=a)a(?<=X)b)c?", Box::new(move |x| Concat(vec![Look(b(Concat(vec![Look(b(la()), false, false), la(), Look(b(x), true, false), lb()])), true, false), Repeat(b(Node::lit("c")), 0, Some(1), Mode::Greedy)]))),
+        ("(?=(?=X)a(?=b)b)[ab]", Box::new(move |x| Concat(vec![Look(b(Concat(vec![Look(b(x), false, false), la(), Look(b(lb()), false, false), lb()])), false, false), Node::class("[ab]")]))),
         // an optional group that ends in a negative look-around (its Split branch and the
         // look-around's own branch sit next to each other on the stack)
         ("a(?:X|(?!b))?b", Box::new(move |x| Concat(vec![la(), Repeat(b(Alt(vec![x, Look(b(lb()), false, true)])), 0, Some(1), Mode::Greedy), lb()]))),
